@@ -2,6 +2,7 @@ import Ktm.RandomSeeded
 import Ktm.GridReach
 import Ktm.HyperbandSched
 import Ktm.Transforms
+import Ktm.Continuous
 /-! # C05 — issued values cover exactly the active hyperparameters, within their domain
 
 Model: a search space is a parent-first list of entries `GHP` (name, value list, conditions), an
@@ -57,10 +58,29 @@ theorem value_list_in_domain (lo hi : Int) (step : Nat) (hs : 0 < step) (hle : l
     (hv : v ∈ Transforms.values lo hi step) : lo ≤ v ∧ v ≤ hi ∧ ∃ k : Nat, v = lo + k * step :=
   (Transforms.mem_values lo hi step hs hle v).mp hv
 
+/-- **continuous kinds** (`Float` without a step), in real arithmetic: every probability in `[0, 1]` — the bound 1.0 that
+the Bayesian optimiser can return included — is mapped into `[min, max]` under linear, log and reverse_log sampling -/
+theorem float_value_in_range (lo hi p : ℝ) (hle : lo ≤ hi) (h0 : 0 ≤ p) (h1 : p ≤ 1) :
+    (lo ≤ Continuous.sampleLinear lo hi p ∧ Continuous.sampleLinear lo hi p ≤ hi) ∧
+    (0 < lo → lo ≤ Continuous.sampleLog lo hi p ∧ Continuous.sampleLog lo hi p ≤ hi) ∧
+    (0 < lo → lo ≤ Continuous.sampleRevLog lo hi p ∧ Continuous.sampleRevLog lo hi p ≤ hi) :=
+  ⟨Continuous.linear_in_range hle h0 h1, fun hlo => Continuous.log_in_range hlo hle h0 h1,
+   fun hlo => Continuous.revlog_in_range hlo hle h0 h1⟩
+
+/-- **`Int` without a step**: `int(sample(prob, max + 1))` clamped to `max` is a member of `{min, …, max}` for every
+probability in `[0, 1]` under all three sampling modes (without the clamp the log modes give `max + 1` at the top end:
+defects F11 / F17, repaired) -/
+theorem int_value_in_range (lo hi : ℤ) (hle : lo ≤ hi) (p : ℝ) (h0 : 0 ≤ p) (h1 : p ≤ 1) :
+    (p < 1 → lo ≤ ⌊Continuous.sampleLinear lo (hi + 1) p⌋ ∧ ⌊Continuous.sampleLinear lo (hi + 1) p⌋ ≤ hi) ∧
+    (0 < lo → lo ≤ min ⌊Continuous.sampleLog lo (hi + 1) p⌋ hi ∧ min ⌊Continuous.sampleLog lo (hi + 1) p⌋ hi ≤ hi) ∧
+    (0 < lo → lo ≤ min ⌊Continuous.sampleRevLog lo (hi + 1) p⌋ hi ∧ min ⌊Continuous.sampleRevLog lo (hi + 1) p⌋ hi ≤ hi) :=
+  ⟨fun hp => Continuous.int_linear_in_range lo hi hle h0 hp, fun hlo => Continuous.int_log_clamped lo hi hlo hle h0 h1,
+   fun hlo => Continuous.int_revlog_clamped lo hi hlo hle h0 h1⟩
+
 /-- partial — Bayesian proposals: `_vector_to_values` walks the space like `sample` with probabilities taken
 from the optimiser's vector instead of the PRNG, so `sampled_is_exact` covers it for every vector in
-`[0,1)^n`; the optimiser's bound `1.0` itself and continuous (step-less) kinds are validated per run, not
-proved (float `pow`). -/
+`[0,1)^n`; continuous kinds are covered by the two theorems above in real arithmetic; what stays outside is the
+floating-point evaluation itself (`math.pow`, rounding of `min + p·(max − min)`): validated per issued trial. -/
 theorem bayes_vector_partial (pick : Nat → GHP → Nat) (hs : List GHP) (hv : ∀ g ∈ hs, g.vals ≠ [])
     (hnd : (names hs).Nodup) (hpf : ParentsFirst [] hs) :
     ∀ g ∈ hs, (active (sample pick hs [] 0).1 g = true → ∃ x ∈ g.vals, (sample pick hs [] 0).1.lookup g.name = some x) ∧
